@@ -109,6 +109,12 @@ func genC04(t *rapid.T) lsw.Case {
 			// the storage may be briefly unreachable when litestream comes back: its first N client calls fail
 			if rapid.IntRange(0, 9).Draw(t, "flakyStart") < 3 {
 				ep.N = rapid.IntRange(1, 3).Draw(t, "flakyCalls")
+				// A = 1: the failing calls that are listings fail while being iterated (after B items), the way a paginated
+				// back end reports a failed page, instead of failing up front
+				if rapid.Bool().Draw(t, "flakyIter") {
+					ep.A = 1
+					ep.B = rapid.IntRange(0, 3).Draw(t, "flakyIterItems")
+				}
 			}
 		}
 		ops = append(ops, ep)
@@ -319,10 +325,17 @@ func execC04(c lsw.Case) (res core.Result) {
 			if o.N > 0 && fc != nil {
 				fc.Plan = nil
 				for k := 0; k < o.N; k++ {
-					fc.Plan = append(fc.Plan, inject.Fault{Code: inject.FailBefore})
+					if o.A == 1 {
+						fc.Plan = append(fc.Plan, inject.Fault{Code: inject.IterErrorAt, Arg: o.B})
+					} else {
+						fc.Plan = append(fc.Plan, inject.Fault{Code: inject.FailBefore})
+					}
 				}
 				fc.N, fc.Enabled = 0, true
 				res.Labels = append(res.Labels, "storage-unreachable-at-restart")
+				if o.A == 1 {
+					res.Labels = append(res.Labels, "listing-fails-while-iterated-at-restart")
+				}
 			}
 		case lsw.IsLSOp(o.K):
 			sr := w.LSStep(o)
